@@ -100,6 +100,8 @@ func fromProto(m *proto.Message, depth int) (v resp.Value, absent bool, err erro
 
 func init() {
 	seq.OnTransport = vrt.ResetTicks
+	seq.OnDelivered = vrt.SeqDelivered
+	seq.OnNewConn = vrt.ResetSeqAllowance
 }
 
 // guard runs f (with a fresh loop-iteration budget) and converts a panic into a string.
